@@ -11,6 +11,7 @@ RULE = ('one evaluation = one driver life with a seeded history of call_out / re
         'owners destructed before the due time, and tick spacings of 1, 2, 3, 5-90 s incl. stalls with coalesced timer expiries; '
         'checked against a reference scheduler. non-trivial = at least one call_out issued from inside a callback, removed, owner '
         'destructed, delay >= 32 or tick gap > 2 s; distinct = distinct abstract traces (op kinds, delay classes, tick gaps).')
+RULE += (' Later additions: in a fifth of the runs the wall clock is set back (1 s to 23 days) or far ahead between ticks; the reference clock is the driver clock made monotonic.')
 COMPONENTS = {'real': ['lib/efuns/call_out.c', 'src/backend.c call_heart_beat()', 'src/interpret.c', 'lib/efuns'],
               'stub': ['timer thread (plan tick steps call the real callback)', 'clock (virtual, read by time())', 'kernel sockets (one telnet client types the commands)']}
 ASSUMPTIONS = ['the reference clock is the driver clock as seen by LPC time(): due = time() at issue + max(delay, 1)',
